@@ -6,12 +6,20 @@ import (
 
 	"github.com/google/uuid"
 	"github.com/kercylan98/vivid"
+	"github.com/kercylan98/vivid/internal/messages"
 	"github.com/kercylan98/vivid/internal/utils"
 )
 
 var (
 	_ vivid.ActorRef = (*Ref)(nil)
 )
+
+func init() {
+	// 供内置消息反序列化时还原 ActorRef
+	messages.RefFactory = func(address, path string) (any, error) {
+		return NewRef(address, path)
+	}
+}
 
 const agentFutureMarker = "@future@"
 const LocalAddress = "localhost"
